@@ -117,6 +117,8 @@ func runC14Once(sc c14Scenario, r *xrun) []Violation {
 				want.Detail += "r"
 			case "R2":
 				want.StdoutSize += 3
+			case "D3":
+				want.State, want.Detail = 4, "Canceled"
 			}
 		}
 		body := func() {
@@ -135,6 +137,15 @@ func runC14Once(sc c14Scenario, r *xrun) []Violation {
 					pending[tid] = func(a *c14Abs) { a.WorkType += "w" }
 					mu.Unlock()
 					bwu.UpdateFullStatus(func(st *workceptor.StatusFileData) { st.WorkType += "w" })
+					if err := bwu.LastUpdateError(); err != nil {
+						out.violate("status:update-failed", "%s: %v", name, err)
+					}
+				case "D3":
+					// the way a unit is cancelled: state and detail are set, the recorded output size is to stay (-1)
+					mu.Lock()
+					pending[tid] = func(a *c14Abs) { a.State, a.Detail = 4, "Canceled" }
+					mu.Unlock()
+					bwu.UpdateBasicStatus(4, "Canceled", -1)
 					if err := bwu.LastUpdateError(); err != nil {
 						out.violate("status:update-failed", "%s: %v", name, err)
 					}
@@ -228,6 +239,9 @@ func runC14(w *W) {
 		{"daemon writer, daemon reader, runner", []string{"D2", "L2", "R1"}, b},
 		{"two updates each", []string{"D2x2", "R1x2", "L1"}, b},
 		{"runner twice, stdout twice", []string{"R1x2", "R2x2"}, b},
+		{"cancel-style update (size unchanged) + stdout writer twice", []string{"D3", "R2x2"}, b},
+		{"cancel-style update + stdout writer + daemon reader", []string{"D3", "R2", "L2"}, b},
+		{"cancel-style update + daemon writer + stdout writer", []string{"D3", "D2", "R2"}, b},
 	}
 	if w.Thorough() {
 		scs = append(scs,
@@ -251,7 +265,7 @@ func init() {
 		ID:        "C14",
 		Level:     "model_checking",
 		Technique: "iterative context-bounding DFS of a cooperative scheduler over hook points in the real Save/Load/UpdateFullStatus/STDoutWriter code (lock file and in-memory lock modelled from the points; real files in tmpfs); final record and every load compared with the fold of the committed updates",
-		Rule: "threads: daemon goroutines sharing one BaseWorkUnit (D1 increments State, D2 appends to WorkType, L2 = Load+Status) and other processes with their own StatusFileData (R1 appends to Detail, R2 = STDoutWriter.Write, L1 = Load); 3 threads with 1-2 operations each, every schedule with <=2 preemptions (thorough: 4-5 threads, <=3); switches at blocked/finished threads are free. " +
+		Rule: "threads: daemon goroutines sharing one BaseWorkUnit (D1 increments State, D2 appends to WorkType, D3 = UpdateBasicStatus(Canceled, size unchanged), L2 = Load+Status) and other processes with their own StatusFileData (R1 appends to Detail, R2 = STDoutWriter.Write, L1 = Load); 3 threads with 1-2 operations each, every schedule with <=2 preemptions (thorough: 4-5 threads, <=3); switches at blocked/finished threads are free. " +
 			"A case is one scenario part; non-trivial = more than one schedule. Oracle: no dead-lock, no failed update, final record = fold of all updates (each writer owns a field), every load parses and equals a record committed while it ran.",
 		Assumptions: []string{"other processes are represented by goroutines with their own StatusFileData: the advisory lock (flock on a fresh descriptor of <file>.lock) excludes them exactly like separate processes", "scheduling points are the hook points; code between two points runs atomically"},
 		Run:         runC14,
